@@ -266,6 +266,9 @@ def spawn_execs(ctx):
         ex.append(["spawn2 %d %d %d %d %d %d" % (code1, nin1, nout1, code2, nout2, nerr2)])
         # ... the second child started while the first child's stdin is still open (it must not inherit that descriptor)
         ex.append(["spawn2 %d %d %d %d %d %d 1" % (code1, nin1, nout1, code2, nout2, nerr2)])
+    # the multiplexed read after a select() that timed out once (simulated by the driver's interposed select)
+    for form in (1, 2):
+        ex.append(["selto", "spawn %d 3 1 7 0 5000 300 %s" % (form, hexs(b"x"))])
     return ex
 
 
